@@ -1049,13 +1049,19 @@ def _norm_loop(node, local_ids, expand_lets=True):
                 return go(n["x"], depth + 1)
             if k == "block" and not n["b"]["stmts"] and n["b"].get("expr"):
                 return go(n["b"]["expr"], depth + 1)
+            zero_cmp = False
+            if k == "binary" and n.get("op") == ">":
+                rz = unwrap(n.get("r"))
+                zero_cmp = isinstance(rz, dict) and rz.get("k") == "lit" and str(rz.get("src", "")).strip() in ("0", "0usize", "0_usize")
             parts = []
             for kk in sorted(n):
                 if kk in ("id", "line", "ty", "src", "adj_ty", "recv_ty", "gargs", "tyj", "exp", "base_ty", "local", "impl_self",
                           "impl_trait", "source"):
                     continue
                 v = n[kk]
-                if kk in ("name", "method", "op", "lit") and isinstance(v, str):
+                if kk == "op" and zero_cmp:
+                    parts.append("op=!=")        # `x > 0` and `x != 0` are the same test on an unsigned count
+                elif kk in ("name", "method", "op", "lit") and isinstance(v, str):
                     parts.append("%s=%s" % (kk, ren(v)))
                 elif isinstance(v, (dict, list)):
                     parts.append("%s(%s)" % (kk, go(v, depth + 1)))
@@ -2140,7 +2146,41 @@ def rule_F16(prog):
             i = next((i for i, (x, y) in enumerate(zip(a, b)) if x != y), min(len(a), len(b)))
             r.find(fn.path, "twin-arms", "the (Insert, Equal) and (Delete, Equal) arms of shift_diff_ops_down differ near `%s` vs `%s`" % (
                 a[max(0, i - 50):i + 50], b[max(0, i - 50):i + 50]), file=fn.file, line=arms["Insert"]["pat"].get("line", fn.line))
+    # the same two arms of the slide-up function: identical except for the length of the Equal op they may create (the
+    # Delete arm's length expression is the reviewed dead code of spec.EXCEPTIONS)
+    for fn in prog.find("algorithms::compact::shift_diff_ops_up"):
+        arms = {}
+        for tags, arm, _ in _tag_pair_arms(fn):
+            if tags[1] == "Equal" and tags[0] in ("Insert", "Delete"):
+                arms[tags[0]] = arm
+        if set(arms) != {"Insert", "Delete"} or arms["Insert"] is arms["Delete"]:
+            continue
+        r.instances += 1
+        a = _norm_loop(_blank_equal_len(arms["Insert"]["body"]), set())
+        b = _norm_loop(_blank_equal_len(arms["Delete"]["body"]), set())
+        ok = a == b
+        r.ob(ok, "shift_diff_ops_up: (Insert, Equal) and (Delete, Equal) arms identical up to the created Equal's len: %s" % ok)
+        if not ok:
+            i = next((i for i, (x, y) in enumerate(zip(a, b)) if x != y), min(len(a), len(b)))
+            r.find(fn.path, "twin-arms-up", "the (Insert, Equal) and (Delete, Equal) arms of shift_diff_ops_up differ (beyond the length "
+                   "of the Equal op they create) near `%s` vs `%s`: both slide a change over the same equal run and must take "
+                   "the old position from the equal run above and the new position from the change" % (
+                       a[max(0, i - 50):i + 50], b[max(0, i - 50):i + 50]), file=fn.file, line=arms["Insert"]["pat"].get("line", fn.line))
     return r
+
+
+def _blank_equal_len(node):
+    """Copy of a HIR subtree in which the `len` field of DiffOp::Equal literals is blanked."""
+    if isinstance(node, list):
+        return [_blank_equal_len(x) for x in node]
+    if not isinstance(node, dict):
+        return node
+    if node.get("k") == "struct" and str(node.get("adt", "")).endswith("DiffOp") and "Equal" in str((node.get("res") or {}).get("path", "") + str(node.get("variant", ""))):
+        out = dict(node)
+        out["fields"] = [dict(f, e={"k": "lit", "src": "<len>", "line": 0}) if f.get("name") == "len" else
+                         dict(f, e=_blank_equal_len(f["e"])) for f in node["fields"]]
+        return out
+    return {k: (_blank_equal_len(v) if isinstance(v, (dict, list)) and k not in ("res", "tyj", "gargs") else v) for k, v in node.items()}
 
 
 def rule_F14(prog):
